@@ -397,14 +397,44 @@ pub fn filter_variants_by_field(
     // A for-loop rather than `.filter`, since `get_field_type` now borrows `&mut program`.
     let mut filtered = Vec::new();
     for variant_id in variants {
-        if let Some(field_type_id) = get_field_type(variant_id, field_idx, program)
-            && is_compatible(field_type_id, field_must_be_id, program)
-        {
+        let Some(field_type_id) = get_field_type(variant_id, field_idx, program) else {
+            continue;
+        };
+        if is_compatible(field_type_id, field_must_be_id, program) {
             filtered.push(variant_id);
+        } else if types_overlap(field_type_id, field_must_be_id, program) {
+            // Only some values of this variant's field pass (`P['int | 'bin]` against `'int`):
+            // the variant stays, with that field refined. Dropping it would make a successful
+            // test narrow the parent to never and leave nothing of it for the later branches.
+            let refined_field = intersect_types(field_type_id, field_must_be_id, program);
+            filtered.push(
+                with_field_type(variant_id, field_idx, refined_field, program)
+                    .unwrap_or(variant_id),
+            );
         }
     }
 
     union_type_ids(program, filtered)
+}
+
+/// The tuple type `variant_id` with the type of field `field_idx` replaced, or `None` if the
+/// variant is not a plain (non-recursive) tuple type.
+fn with_field_type(
+    variant_id: usize,
+    field_idx: usize,
+    field_type_id: usize,
+    program: &mut Program,
+) -> Option<usize> {
+    if contains_cycle(variant_id, program, &mut Vec::new()) {
+        return None;
+    }
+    let Some(Type::Tuple(tuple_id)) = program.lookup_type(variant_id).cloned() else {
+        return None;
+    };
+    let mut info = program.lookup_tuple(tuple_id)?.clone();
+    info.fields.get_mut(field_idx)?.1 = field_type_id;
+    let refined_tuple = program.register_tuple(info.name, info.fields);
+    Some(program.register_type(Type::Tuple(refined_tuple)))
 }
 
 /// Compute the complement type: the values of `original` that are NOT in `narrowed`.
